@@ -368,6 +368,12 @@ void encode_imm(struct instr *instrc) {
   // mask all bits except for the most significant byte
   // (a `word` memory operand is sized like a 16-bit register)
   bool mem_is_16 = instrc->mem_disp && instrc->keyword.is_word;
+  // (the placeholder register of a memory operand without base register says
+  // nothing about the operand size)
+  bool no_base_reg = instrc->mem_disp && !(instrc->opd[0].reg & MODE_MASK) &&
+                     !instrc->keyword.is_byte;
+  if (no_base_reg && !mem_is_16)
+    return;
   if ((instrc->opd[0].reg & MODE_MASK) < reg32 || mem_is_16) {
     DO_NOT_PAD(instrc->cons, instrc->reduced_imm, MAX_UNSIGNED_16BIT);
     if (((instrc->opd[0].reg & MODE_MASK) == reg16 ||
@@ -375,7 +381,7 @@ void encode_imm(struct instr *instrc) {
         instrc->cons <= MAX_UNSIGNED_8BIT)
       instrc->reduced_imm = false;
   }
-  if ((instrc->opd[0].reg & MODE_MASK) < reg16) {
+  if ((instrc->opd[0].reg & MODE_MASK) < reg16 && !no_base_reg) {
     DO_NOT_PAD(instrc->cons, instrc->reduced_imm, MAX_UNSIGNED_8BIT);
   }
 }
